@@ -598,8 +598,32 @@ pub fn check(case: &Case, out: &mut CaseOut) {
     oracle(&case.msgs, &case.keepalives, &case.cuts, out);
 }
 
+fn seed_corpus_stream(dir: &std::path::Path) {
+    // input layout of the target: 3 selector bytes (segmentation), then the stream
+    let c = corpus();
+    for (i, m) in c.iter().enumerate() {
+        for sel in [[0u8, 0, 0], [1, 77, 0], [2, 40, 200]] {
+            let mut b = sel.to_vec();
+            b.extend_from_slice(&m.bytes());
+            if i % 3 == 0 {
+                b.extend_from_slice(b"\r\n");
+                b.extend_from_slice(&c[(i + 5) % c.len()].bytes());
+            }
+            let _ = std::fs::write(dir.join(format!("c03-{i:03}-{}", sel[0])), &b);
+        }
+    }
+    for (i, case) in sample_strategy(&strategy(), 11, 120).into_iter().enumerate() {
+        let mut b = vec![(i % 3) as u8, (i * 37 % 256) as u8, (i * 91 % 256) as u8];
+        for m in case.msgs.iter().filter(|m| m.body.len() < 3000) {
+            b.extend_from_slice(&m.bytes());
+        }
+        let _ = std::fs::write(dir.join(format!("gen-{i:03}")), &b);
+    }
+}
+
 pub fn property() -> Property {
     Property {
+        fuzz: vec![FuzzStage { target: "sip_stream", runs: 800_000, max_len: 9000, seed_corpus: seed_corpus_stream }],
         id: "C03",
         rule: "a case = 1..4 SIP messages (heads <= 4096 B, bodies <= 65535 B; Content-Length spelled in any case / compact l,L / blanks around the colon / folded / any position; decoy headers; bodies containing CRLFCRLF and fake messages) + 0..3 CRLF keep-alives before/between/after + a segmentation; fed through the real tokio_util FramedRead<_, StreamingDecoder>; oracle = each message alone through the datagram parser plus the generator's own record. cuts1: EVERY 1-cut of 26 corpus messages and of 2-message pipelines; cuts2: every 2-cut (thorough; strided in quick); random: generated sequences with k-cuts, 1-byte dribble, single write. Non-trivial = a cut inside a head after the Content-Length line, inside a body or at a keep-alive, or a decoy header, or a non-canonical Content-Length spelling; distinct by (messages, keep-alives, cuts).",
         assumptions: vec![
